@@ -10,21 +10,21 @@ LEVEL_TEXT = {
     "C01": "proof: dump, load(dump(m)) and dump(load(line)) discharged for all payload strings and all five versions, modulo the marshmallow and str lemma contracts",
     "C02": "proof: accept-iff, literal decode and raises-only{ValidationError} of Schema.load discharged over the field-list abstraction of all strings, five versions",
     "C03": "proof: exhaustive raises clauses on every function of the receive path (implicit raises are paths); listen re-establishes its precondition",
-    "C04": "proof: every handler refines the registry step specification (whole-heap frame), per version, composed through both decorators and the dispatch",
-    "C05": "proof: get_protocol/setter/handle_i_version against select(major,minor); agreement on normal and exceptional exits; type gates per version",
+    "C04": "proof: every handler refines the registry step specification (whole-heap frame), per version, composed through both decorators and the dispatch; which outcome a message has (recorded, rejected, unknown node/child named) is fixed by pre-state guards written from the property text, also for exits with an exception the specification does not list",
+    "C05": "proof: get_protocol/setter/handle_i_version against select(major,minor); agreement on normal and exceptional exits; type gates per version (the dispatch consults the active module's enums; the enums themselves are pinned to the documented type numbers 0..14 / 0..17 / 0..28 / 0..28 / 0..33 and stream 0..5, since which numbers exist is specification data); which outcome a message has is a clause of its own (outcome-as-specified)",
     "C06": "proof: exact write-log postconditions (ghost log) of every handler incl. version query and failure prefixes",
     "C07": "proof: flush loop invariant (released gone / only that node / each released entry written once via ghost counter) and wake handler contracts",
-    "C08": "proof: exceptional postcondition of the flush loop and its callers (written ones gone, unwritten stay, no repeat) + the release's normal postcondition (a release whose writes succeed leaves nothing of that node: 'written at a later wake'); bounded native fault enumeration (the property's own quantifier) stands in when the loop is restructured",
-    "C09": "proof: rely/guarantee at the await inside the flush loop (shared buffer havocked under the rely before the callee post): no entry is removed whose message the flush did not write; park branch proved await-free; the destination stays flagged sleeping for the whole release (precondition proved at every call site, loop invariant), so a racing send can only park; bounded sweep of 30 native schedules",
+    "C08": "proof: exceptional postcondition of the flush loop and its callers (written ones gone, unwritten stay, no repeat) + the release's normal postcondition (a release whose writes succeed leaves nothing of that node: 'written at a later wake'); the outgoing set handler parks a command under its own (node, child, value type) key; bounded native fault enumeration (the property's own quantifier) stands in when the loop is restructured",
+    "C09": "proof: rely/guarantee at the await inside the flush loop (shared buffer havocked under the rely before the callee post): no entry is removed whose message the flush did not write, neither before it suspends in the write nor after it resumes; park branch proved await-free; the destination stays flagged sleeping for the whole release (precondition proved at every call site, loop invariant), so a racing send can only park; bounded sweep of 42 native schedules (keys differing in child or in value type only)",
     "C10": "proof: presentation-request wrapper contract on every decorated handler: one request iff no marker, marker only after a successful write, re-armed by node presentation",
     "C11": "proof: handle_i_id_request contract (range, fresh, registered before write, response shape, failure frames) over an arbitrary registry",
-    "C12": "proof: trichotomy contract of Gateway.send over all commands/buffer flag/versions; outgoing handlers proved on their bodies",
+    "C12": "proof: trichotomy contract of Gateway.send over all commands/buffer flag/versions; outgoing handlers proved on their bodies; 'held and handed to the transport at the next wake' = the release contract's each-released-once / unwritten-stay clauses proved on the release loop (2.0-2.2)",
     "C13": "proof of the repository-code parts (save loop serialises every node; make_node/make_child restore every named attribute; legacy hooks; reach domain of validated fields inside their accept domain incl. the battery handler's range); marshmallow's and json's own field round trips are assumed contracts cross-checked by a bounded native round trip",
     "C14": "proof: exceptional postcondition raises-only{PersistenceReadError} of Persistence.load over an arbitrary file state and an arbitrary parsed JSON value, with the real schema hooks and constructors; missing and empty file cases",
     "C15": "crash Hoare logic: one crash-condition obligation per file-system effect met by the symbolic execution of save; the truncate-in-place and partial-write crash points fail and are recorded known findings (not repairable without editing the suite), the remaining ones are discharged",
     "C16": "proof: contracts of __aenter__/__aexit__/start/stop/save and both saver closures over ghost counters (live tasks, completed writes, connection); cancellation as an exceptional outcome of the saver's awaits",
     "C17": "proof: StreamTransport.read/write/connect/disconnect for both concrete transports over ghost byte streams; every exception path ends in a TransportError; chunking independence is the assumed readuntil contract",
-    "C18": "proof: topic/line mapping both ways and their composition for all prefixes and payloads, subscriptions, publish log, FIFO queue contract, receive task leaves its loop only cancelled or after enqueueing an error, disconnect does not raise",
+    "C18": "proof: topic/line mapping both ways and their composition for all prefixes and payloads, subscriptions, publish log, FIFO queue contract, receive task leaves its loop only cancelled or after a broker error that it enqueues (an undecodable payload is enqueued as an error and reception goes on), disconnect does not raise",
     "C19": "proof: overrides: all versions proved against specifications derived from the same leaf specs + structural equality of the derived specs per (command,type) and table monotonicity; inherited code: 354 relational units (the same function under two adjacent versions from one symbolic pre-state: overlapping paths must agree on outcome and pre-state-determined heap effects; a candidate difference counts only if it replays natively under both versions)",
 }
 NOTE = ("Trusted: the VC generator pyvc (written for this task), z3/cvc5, and the assumed library contracts listed in each evidence file "
